@@ -171,6 +171,8 @@ def run(rep):
     n = 700 if rep.tier == "quick" else 25000
     cases = [c for _, c in load_corpus(PID)] + [gen_case(rng) for _ in range(n)]
     nbad, mismatch = evaluate(rep, cases)
+    from props.toolscommon import tool_cli_stage
+    tool_cli_stage(rep, "bkli", random.Random(rep.seed + 909), 150 if rep.tier == "quick" else 5000)
     if (mismatch or rep.broken) and not rep.violations:
         nbad2, _ = evaluate(rep, [gen_case(rng) for _ in range(1500)])
         if nbad2 == 0:
@@ -181,7 +183,33 @@ def run(rep):
             rep.violation("; ".join(what), {"broken": rep.broken, "samples": rep.extra.get("model_mismatch_samples")}, no_input=True)
 
 
+def replay_toolcli(rep, payload):
+    import fscheck
+    from props.toolscommon import model_ops
+    c = payload["case"]["toolcli"]
+    obs, op = fscheck.run_case(c, tool="bkli")
+    m = model_ops([{"op": "toolcli", "id": 0, "tool": "bkli", "entries": op["entries"], "cwd": op["cwd"], "env": {}, "opts": op["opts"]}]).get(0)
+    print(obs)
+    print(m)
+    return 1
+
+
+def replay_toolcli(rep, payload):
+    import fscheck
+    from props.toolscommon import model_ops
+    c = payload["case"]["toolcli"]
+    obs, op = fscheck.run_case(c, tool="bkli")
+    m = model_ops([{"op": "toolcli", "id": 0, "tool": "bkli", "entries": op["entries"], "cwd": op["cwd"], "env": {}, "opts": op["opts"]}]).get(0)
+    print(obs)
+    print(m)
+    return 1
+
+
 def replay(rep, payload):
+    if "toolcli" in payload.get("case", {}):
+        return replay_toolcli(rep, payload)
+    if "toolcli" in payload.get("case", {}):
+        return replay_toolcli(rep, payload)
     o = run_one(payload["case"])
     print(o)
     return 1 if o.get("fail") else 0
